@@ -38,6 +38,13 @@ func (k msgServer) Binding(goCtx context.Context, msg *types.MsgBinding) (*types
 		return nil, types.ErrOutOfDate
 	}
 
+	// the account signs proof.Message only: that text has to state which did is accepted and
+	// when, otherwise any signature of the account could be presented for any did at any time
+	if !strings.Contains(proof.Message, "did: "+did) || !strings.Contains(proof.Message, "Timestamp: "+fmt.Sprint(proof.Timestamp)) {
+		logger.Error("signed message does not state the did and timestamp of the proof", "did", did, "timestamp", proof.Timestamp)
+		return nil, types.ErrInvalidBindingProof
+	}
+
 	caip10, err := parseAcccountId(accId)
 	if err != nil {
 		logger.Error("failed to parse accountId!!", "accountId", accId, "did", did, "err", err)
